@@ -35,6 +35,9 @@ struct Script {
 	/// capacity of the event queue the worker feeds (the callback uses try_send)
 	#[serde(default = "default_cap")]
 	ev_cap: u64,
+	/// capacity of the runtime-error channel the worker reports failing watch / unwatch calls to
+	#[serde(default = "default_err_cap")]
+	err_cap: usize,
 	init_paths: Vec<String>,
 	#[serde(default)]
 	fail_watch: Vec<String>,
@@ -66,6 +69,10 @@ struct Step {
 
 fn default_cap() -> u64 {
 	1024
+}
+
+fn default_err_cap() -> usize {
+	64
 }
 
 /// "a" = /vfs/a watched recursively, "a!" = /vfs/a watched non-recursively
@@ -258,7 +265,7 @@ async fn run_script(script: Script) -> Vec<Ev> {
 		})));
 	}
 
-	let (er_s, mut er_r) = mpsc::channel::<RuntimeError>(64);
+	let (er_s, mut er_r) = mpsc::channel::<RuntimeError>(script.err_cap.max(1));
 	let (ev_s, ev_r) = priority::bounded::<watchexec_events::Event, watchexec_events::Priority>(script.ev_cap);
 	{
 		let rec = rec.clone();
